@@ -262,14 +262,31 @@ def write_frames(repo, sizes: Dict[str, int], buffer: int, frames_with_records: 
     return out, problems
 
 
-def read_records(repo, out: Group, n_frames: int):
+def exported_file(n_steps: int, frame: int = 7) -> Group:
+    """The file Solution.to_hdf5(new_path) writes for a solution whose raw output is gone: one frame, whose running_state holds the
+    records of the whole run (DynamicsData.to_hdf5)."""
+    out = Group("file")
+    data = Group("file/data")
+    out.items["data"] = data
+    fr = Group(f"file/data/{frame}")
+    data.items[str(frame)] = fr
+    for k in ("psi", "mu"):
+        fr.items[k] = Arr((5,), k)
+    rs = Group(f"file/data/{frame}/running_state")
+    fr.items["running_state"] = rs
+    rs.items.update({"dt": Arr((n_steps,), "dt"), "mu": Arr((MANY, n_steps), "mu"), "theta": Arr((MANY, n_steps), "theta"),
+                     "screening_iterations": Arr((n_steps,), "screening_iterations")})
+    return out
+
+
+def read_records(repo, out: Group, n_frames: int, data_range=None):
     f = repo.func(DATA, "DynamicsData.from_hdf5")
 
     C = repo.cls(DATA, "DynamicsData")
 
     def call(m, node, name, args, kwargs):
         if name == "get_data_range":
-            return (0, n_frames - 1)
+            return data_range or (0, n_frames - 1)
         short = name.split(".")[-1]
         # other methods of the class (a reader split into helpers) are followed
         if name.split(".")[0] in ("DynamicsData", "cls") and name.count(".") == 1 and short in C.methods and short != "from_hdf5":
